@@ -322,6 +322,107 @@ def gen_walk(pair: Pair, rng, max_len, max_breaks, on_event=None):
     return out
 
 
+SIZE_BASES_QUICK = [1, 2, 10, 64, 100, 128, 256]
+SIZE_BASES_THOROUGH = SIZE_BASES_QUICK + [1000]
+
+
+def pick_sizes(ctx, rng):
+    """backlog sizes of the long scenarios: around typical batching constants (base - 1, base, base + 1); every run has
+    at least one backlog >= 99 and (thorough) one >= 999"""
+    bases = SIZE_BASES_THOROUGH if ctx.tier == "thorough" else SIZE_BASES_QUICK
+    out = [rng.choice([100, 128, 256]) + rng.choice([-1, 0, 1]), rng.choice([100, 128]) + rng.choice([-1, 0, 1, 10])]
+    for _ in range(ctx.n(4, 12)):
+        out.append(max(1, rng.choice(bases) + rng.choice([-1, 0, 1])))
+    if ctx.tier == "thorough":
+        out += [999, 1000, 1001, 257, 1000 + rng.randint(2, 200)]
+    return out
+
+
+def long_walk(pair: Pair, rng, size, on_event, force=None):
+    """a LONG scenario: logon; a prelude of breaks in which Logon replies and resend replies are lost (so that the
+    outbound journals get consecutive session rows, gap-fill rows and holes); then a backlog of `size` application
+    messages sent while deliveries are withheld (optionally lost in one more break); recovery; a final clean
+    break / reconnect / logon.  Returns the event list; the caller checks quiescence."""
+    pair.reset()
+    now = [T0]
+    events = []
+    counters = {"I": 0, "A": 0}
+
+    def do(*ev):
+        now[0] += 125
+        if ev[0] in ("s", "d"):
+            e = (ev[0], ev[1], now[0]) + tuple(ev[2:])
+        else:
+            e = (ev[0], now[0])
+        toks = pair.apply(e)
+        events.append(e)
+        on_event(e, toks)
+
+    def send(side):
+        counters[side] += 1
+        do("s", side, payload(side, counters[side]))
+
+    def drain_all(limit=20000):
+        for _ in range(limit):
+            if pair.q["A"]:
+                do("d", "A")
+            elif pair.q["I"]:
+                do("d", "I")
+            else:
+                return
+
+    def deliver_all_to(side):
+        while pair.q[side]:
+            do("d", side)
+
+    do("r")
+    drain_all()
+    for _ in range(rng.randint(0, 3)):
+        send(rng.choice("IA"))
+    drain_all()
+    # prelude: lost Logon replies and lost resend replies
+    for _ in range(rng.randint(1, 3)):
+        do("b")
+        do("r")
+        do("d", "A")                      # A answers the Logon (and asks for a resend if it is behind)
+        if force or rng.random() < 0.7:
+            do("b")                        # ... the answer is lost: two consecutive Logon rows on both sides
+            do("r")
+            do("d", "A")
+        deliver_all_to("I")               # I: Logon reply, gap -> ResendRequest; A's request (if any) is served
+        for _ in range(rng.randint(0, 3)):
+            if pair.q["A"]:
+                do("d", "A")              # A serves I's request (session rows compacted into one GapFill) ...
+        if rng.random() < 0.3:
+            for _ in range(rng.randint(0, 2)):
+                if pair.q["I"]:
+                    do("d", "I")
+        # ... and the reply is lost
+    do("b")
+    do("r")
+    do("d", "A")
+    senders = force or rng.choice(["A", "A", "I", "both"])
+    if senders != "A":
+        deliver_all_to("I")               # the initiator may send only after the Logon reply
+    mode = "lost" if force else rng.choice(["withheld", "withheld", "lost"])
+    for j in range(size):
+        side = senders if senders in ("A", "I") else "AI"[j % 2]
+        send(side)
+        if rng.random() < 0.01:
+            q = rng.choice("IA")
+            if pair.q[q]:
+                do("d", q)
+    if mode == "lost":
+        do("b")
+        do("r")
+    drain_all()
+    mid_quiescent = pair.quiescent()
+    do("b")
+    do("r")
+    drain_all()
+    return events, {"size": size, "senders": senders, "mode": mode, "mid_quiescent": mid_quiescent}
+
+
 def corpus_walks():
     out = []
     for path in sorted(glob.glob(os.path.join(C.VERIF, "corpus", "link", "*.json"))):
@@ -482,6 +583,21 @@ def correspondence(ctx):
             if pair.anomalies:
                 dis.append({"input": {"events": [ev_json(e) for e in events], "label": "harness-anomaly"},
                             "model": "-", "impl": repr(pair.anomalies[:3])[:600]})
+        # long scenarios: backlogs around batching constants, journals with holes / gap-fill rows
+        stats["long_scenarios"] = []
+        for li, size in enumerate(pick_sizes(ctx, ctx.rng)):
+            segs = []
+
+            def on_long(ev, toks, segs=segs):
+                segs.append(pair.lite(toks))
+
+            # the first two (backlog >= 99) are forced: lost Logon replies in the prelude, backlog lost in a break
+            events, info = long_walk(pair, ctx.rng, size, on_long, force={0: "A", 1: "I"}.get(li) or {1000: "A", 1001: "I"}.get(size))
+            segs[-1] += " # " + pair.full()
+            info["events"] = len(events)
+            info["final_quiescent"] = pair.quiescent()
+            stats["long_scenarios"].append(info)
+            walks.append((f"long{size}", events, segs, 0))
         # model side in batches
         B = 500
         for i in range(0, len(walks), B):
@@ -516,7 +632,11 @@ def correspondence(ctx):
                     f"EVERY event (effects, states, counters, watermark, stored counters, row counts, queue lengths, quiescence) "
                     f"and on the whole state (journals decoded, queues) every {K}th event and at the end; plus exhaustive "
                     f"breadth-first exploration to depth {depth} over the 6-event alphabet with state hashing, whole state "
-                    "compared after every (state, event). distinct = distinct (event, effect-kind sequence, state I, state A). "
+                    "compared after every (state, event). Long scenarios (size dimension): backlogs of sizes around "
+                    "1, 2, 10, 64, 100, 128, 256 (thorough: 1000+) +-1 sent while deliveries are withheld or lost, after a "
+                    "prelude of lost Logon replies / lost resend replies (journals with consecutive session rows, gap-fill rows, "
+                    "holes), then recovery; compared after every event (effects + scalars) and on the whole state at the end. "
+                    "distinct = distinct (event, effect-kind sequence, state I, state A). "
                     f"Model-only: exhaustive exploration to depth {mdepth} inside the driver checking absLink(step) = "
                     "astep(absLink), SafeInv, SyncInv and the property's clauses on every state.",
             "samples": samples,
@@ -635,11 +755,49 @@ def oracle(ctx, disagreements, broken):
                     return
 
         for dis in disagreements[:100]:
-            run_list([ev_from_json(e) for e in dis["input"].get("events", [])])
+            evs = [ev_from_json(e) for e in dis["input"].get("events", [])]
+            f0 = len(mon.failures)
+            run_list(evs)
+            if evs and len(mon.failures) == f0:
+                # continue the disagreeing prefix to quiescence: deliver everything, one clean break / reconnect / logon
+                tail = list(evs)
+                tnow = max(e[2] if e[0] in ("s", "d") else e[1] for e in evs) + 1000
+                drain(pair, tail, mon, tnow, limit=20000)
+                for ev in (("b", tnow + 125), ("r", tnow + 250)):
+                    pair.apply(ev)
+                    tail.append(ev)
+                drain(pair, tail, mon, tnow + 375, limit=20000)
+                if len(mon.failures) == f0 and not pair.quiescent():
+                    mon.failures.append({"signature": "C07-recovery-does-not-complete",
+                                         "what": "a history on which model and implementation disagree does not reach quiescence",
+                                         "input": {"events": [ev_json(e) for e in tail]},
+                                         "expected": "both ACTIVE, queues empty",
+                                         "observed": f"states {pair.state('I')} {pair.state('A')}"})
         for _, events in corpus_walks():
             run_list(events)
             ev2 = list(events)
             drain(pair, ev2, mon, T0 + 10_000_000)
+        # long scenarios (size dimension): the quiescence sentences after the recovery of a long backlog
+        long_stats = []
+        for li, size in enumerate(pick_sizes(ctx, ctx.rng)):
+            done = []
+            bad = []
+
+            def on_long(ev, toks):
+                done.append(ev)
+                # the full monitor is quadratic in the history: every 16th event and at every quiescent point
+                if not bad and (len(done) % 16 == 0 or pair.quiescent()) and mon.check(pair, done):
+                    bad.append(1)
+
+            events, info = long_walk(pair, ctx.rng, size, on_long, force={0: "A", 1: "I"}.get(li) or {1000: "A", 1001: "I"}.get(size))
+            if not bad and not mon.check(pair, events) and not pair.quiescent():
+                mon.failures.append({"signature": "C07-recovery-does-not-complete",
+                                     "what": "after the recovery of a long backlog the two ends are not both ACTIVE with empty queues",
+                                     "input": {"events": [ev_json(e) for e in events]},
+                                     "expected": "both ACTIVE, queues empty",
+                                     "observed": f"states {pair.state('I')} {pair.state('A')}"})
+            info["events"] = len(events)
+            long_stats.append(info)
         nw = ctx.n(1500, 10000) * (3 if broken else 1)
         ml, mb = ctx.n(40, 120), ctx.n(3, 6)
         for _ in range(nw):
@@ -671,6 +829,7 @@ def oracle(ctx, disagreements, broken):
             exhaustive_impl(pair, ctx.n(8, 10), lambda p, events: mon.check(p, events))
         ctx.oracle_stats = {"states_checked": mon.n, "quiescent_points": mon.quiescent, "walks": nw,
                             "completed_recoveries": mon.recoveries, "failures": len(mon.failures),
+                            "long_scenarios": long_stats,
                             "sentences": ["duplicate-or-reordered-number", "not-a-subsequence", "number-reused",
                                           "lost-at-quiescence", "counters-differ-at-quiescence", "recovery-does-not-complete"]}
     finally:
